@@ -20,6 +20,7 @@ import GocoinV.Proofs.C15Reuse
 import GocoinV.Proofs.C15Sched
 import GocoinV.Proofs.C15Str2
 import GocoinV.Proofs.C15Str3
+import GocoinV.Proofs.C15Payout
 namespace GocoinV.Props.C15
 open GocoinV Bech32
 
@@ -756,6 +757,70 @@ theorem rune_narrowing_accepts_nonalphabet :
   refine ⟨?_, ?_, Base58Str.decode_hi _ ⟨0xc4, by simp, by decide⟩⟩
   · unfold Base58Str.decodeGo; rw [hv]; simp only [hn]; decide +kernel
   · unfold Base58.decode; rw [hw]; simp only [hn]; decide +kernel
+
+/-! ### A payout address typed at run time (client/usif/textui `minadr` → rpcapi.COINBASE_ADDRESS → make_coinbase_tx)
+
+"Hence the script a payment is sent to is always the one the typed address denotes", for the caller that keeps the
+typed address ACROSS calls. `Addr.Payout.run` is the model of the two sites as written (the only state is the
+string; every template decodes it again); go/cmd/c15/callers.go runs the same histories through the real
+`minadr` handler and the real `make_coinbase_tx`, one fresh process per history. -/
+
+/-- For EVERY history of `minadr <string>` commands, templates and `validateaddress` calls, from every start value
+    of COINBASE_ADDRESS and for every hash function: the template requested next pays the script of the address IN
+    FORCE - the last typed string that is non-empty and accepted by `NewAddrFromString`, the start value when
+    nothing acceptable was typed yet. Templates and validateaddress calls that happened earlier do not appear on
+    the right-hand side at all: no earlier request can influence what a template pays. -/
+theorem payout_pays_address_in_force (H : Addr.Hashes) (pre : List Addr.Payout.Step) (start : Bytes) :
+    Addr.Payout.run H (pre ++ [.template]) start =
+      Addr.Payout.run H pre start ++
+        [.pays (Addr.Payout.scriptOf H (Addr.Payout.inForce H start (Addr.Payout.typedOf pre)))] := by
+  rw [Addr.Payout.run_append, Addr.Payout.cfgAfter_eq_inForce]; rfl
+
+/-- The same for the string `minadr` DISPLAYS: after typing `s` the command shows the address in force of the
+    history including `s` - `s` itself when it is a non-empty accepted address, the previous one otherwise. -/
+theorem payout_shows_address_in_force (H : Addr.Hashes) (pre : List Addr.Payout.Step) (start s : Bytes) :
+    Addr.Payout.run H (pre ++ [.typed s]) start =
+      Addr.Payout.run H pre start ++ [.shown (Addr.Payout.inForce H start (Addr.Payout.typedOf pre ++ [s]))] ∧
+    (s ≠ [] → Addr.Payout.accepted H s = true →
+      Addr.Payout.inForce H start (Addr.Payout.typedOf pre ++ [s]) = s) ∧
+    (Addr.Payout.accepted H s = false →
+      Addr.Payout.inForce H start (Addr.Payout.typedOf pre ++ [s]) =
+        Addr.Payout.inForce H start (Addr.Payout.typedOf pre)) := by
+  refine ⟨?_, ?_, ?_⟩
+  · rw [Addr.Payout.run_append, Addr.Payout.cfgAfter_eq_inForce]
+    simp only [Addr.Payout.run, Addr.Payout.inForce_snoc]
+  · intro h1 h2; rw [Addr.Payout.inForce_snoc]; simp [Addr.Payout.minadr, h1, h2]
+  · intro h2; rw [Addr.Payout.inForce_snoc]; simp [Addr.Payout.minadr, h2]
+
+/-- What the template pays IS what the address in force denotes: when the string in force decodes to one of the
+    supported destination forms, the template does not panic, its script is the `OutScript` of that address, and
+    `NewAddrFromPkScript` maps that script back to an address with the same script (either network flag);
+    `validateaddress` of the same string reports the same script. -/
+theorem payout_script_is_denoted (H : Addr.Hashes) (s : Bytes) (a : Addr.Addr) (tn : Bool)
+    (hd : Addr.fromString H s = .ok a) (hs : Addr.Supported a) :
+    ∃ scr a', Addr.Payout.scriptOf H s = some scr ∧ Addr.outScript a = some scr ∧
+      Addr.Payout.validate H s = some (some scr) ∧
+      Addr.fromPkScript H scr tn = some a' ∧ Addr.outScript a' = some scr := by
+  obtain ⟨scr, a', h1, h2, h3⟩ := Addr.script_roundtrip H a tn hs
+  exact ⟨scr, a', by simp [Addr.Payout.scriptOf, hd, h1], h1, by simp [Addr.Payout.validate, hd, h1], h2, h3⟩
+
+/-- non-vacuity (and the history of the round-5 change): start value = BIP350's testnet P2TR vector; a template, then
+    `minadr` with BIP173's testnet P2WPKH vector, then a template: the second template pays 0014 751e…, not the
+    script of the start value; an unacceptable string typed afterwards changes nothing (these strings never reach the hash slots,
+    a toy hash serves). -/
+example :
+    Addr.Payout.run ⟨fun _ => List.replicate 32 0, fun _ => []⟩ [.template, .typed (strBytes "tb1qw508d6qejxtdg4y5r3zarvary0c5xw7kxpjzsx"), .template,
+        .typed (strBytes "tb1qw508d6qejxtdg4y5r3zarvary0c5xw7kxpjzsy"), .template]
+      (strBytes "tb1pqqqqp399et2xygdj5xreqhjjvcmzhxw4aywxecjdzew6hylgvsesf3hn0c") =
+    [.pays (some ([0x51, 32] ++ [0x00, 0x00, 0x00, 0xc4, 0xa5, 0xca, 0xd4, 0x62, 0x21, 0xb2, 0xa1, 0x87, 0x90, 0x5e,
+        0x52, 0x66, 0x36, 0x2b, 0x99, 0xd5, 0xe9, 0x1c, 0x6c, 0xe2, 0x4d, 0x16, 0x5d, 0xab, 0x93, 0xe8, 0x64, 0x33])),
+     .shown (strBytes "tb1qw508d6qejxtdg4y5r3zarvary0c5xw7kxpjzsx"),
+     .pays (some ([0x00, 20] ++ [0x75, 0x1e, 0x76, 0xe8, 0x19, 0x91, 0x96, 0xd4, 0x54, 0x94, 0x1c, 0x45, 0xd1, 0xb3,
+        0xa3, 0x23, 0xf1, 0x43, 0x3b, 0xd6])),
+     .shown (strBytes "tb1qw508d6qejxtdg4y5r3zarvary0c5xw7kxpjzsx"),
+     .pays (some ([0x00, 20] ++ [0x75, 0x1e, 0x76, 0xe8, 0x19, 0x91, 0x96, 0xd4, 0x54, 0x94, 0x1c, 0x45, 0xd1, 0xb3,
+        0xa3, 0x23, 0xf1, 0x43, 0x3b, 0xd6]))] := by
+  decide +kernel
 
 /-
   -- OPEN: error detection for FOUR substitutions (BIP173's "up to 4"). Full statement:
